@@ -1,0 +1,9 @@
+//go:build !verif
+
+package transport
+
+import "net"
+
+// verifServerYield marks a point at which the verification harness (build tag `verif`, see
+// verif_server.go) can hold the calling goroutine. In normal builds it is empty and inlined away.
+func verifServerYield(ServerProtocol, string, net.Conn) {}
